@@ -80,7 +80,7 @@ func (c *Ctx) factsIn(ac *affCtx, f *ssa.Function) []string {
 				}
 				name := calleeName(x.Common())
 				if name == "" {
-					name = "call:" + ac.describe(x.Common().Value)
+					name, as = renderFuncValueCall(ac.describe(x.Common().Value), as)
 				}
 				out = append(out, "call "+name+"("+strings.Join(as, ",")+")")
 			case *ssa.Store:
